@@ -115,13 +115,49 @@ def ev(f, mask, bit):
     return a == b
 
 
+def _flat(f, op):
+    """Operands of a left/right-nested chain of one associative operator."""
+    out, stack = [], [f]
+    while stack:
+        x = stack.pop()
+        if not isinstance(x, str) and x[0] == op:
+            stack.append(x[2])
+            stack.append(x[1])
+        else:
+            out.append(x)
+    return out
+
+
+def compile_formula(f, bit):
+    """Python source of a boolean expression over the int `m` (same meaning as ev(); AND/OR chains are
+    flattened so that very long disjunctions do not nest)."""
+    if isinstance(f, str):
+        return f"(m & {bit[f]} != 0)"
+    o = f[0]
+    if o == "NOT":
+        return f"(not {compile_formula(f[1], bit)})"
+    if o in ("AND", "OR"):
+        parts = [compile_formula(x, bit) for x in _flat(f, o)]
+        return "(" + (" and " if o == "AND" else " or ").join(parts) + ")"
+    a, b = compile_formula(f[1], bit), compile_formula(f[2], bit)
+    if o == "XOR":
+        return f"({a} != {b})"
+    if o == "IMPLIES":
+        return f"((not {a}) or {b})"
+    return f"({a} == {b})"
+
+
 def selections(text, names):
     universe = set(names)
     fs = parse(text, universe)
     bit = {n: 1 << k for k, n in enumerate(names)}
+    try:
+        fns = [eval("lambda m: " + compile_formula(f, bit)) for f in fs]  # noqa: S307 - harness-generated source
+    except (RecursionError, MemoryError, SyntaxError):
+        fns = [lambda m, f=f: ev(f, m, bit) for f in fs]
     out = set()
     for mask in range(1 << len(names)):
-        if all(ev(f, mask, bit) for f in fs):
+        if all(fn(mask) for fn in fns):
             out.add(frozenset(n for n in names if mask & bit[n]))
     return out
 
